@@ -137,6 +137,21 @@ def fresh_results(res, name, call, desc):
     return True
 
 
+def rerun_sample(res, name, ops, outs, call, rng, k=300):
+    """history independence: a sample of the operations is executed again after everything else (other arguments, failing
+    calls) has gone through the same functions; every answer must be the one given the first time"""
+    if not ops:
+        return
+    idx = rng.sample(range(len(ops)), min(k, len(ops)))
+    for i in idx:
+        again = call(ops[i])
+        if again != outs[i]:
+            res.violation(name + ':answer-depends-on-earlier-calls', {'op': list(ops[i]) if not isinstance(ops[i], str) else ops[i]},
+                          str(again)[:200], 'the answer of the first call: ' + str(outs[i])[:160])
+            return
+    res.count('rerun_sample_' + name, len(idx))
+
+
 def tup(x):
     return tuple(tup(y) if isinstance(y, (list, tuple)) else y for y in x)
 
